@@ -55,7 +55,7 @@ def prepare(name, bindir=None, poll_secs=1, exe="verif-agent"):
     return d, dst
 
 
-def run_rig(script, name, *, timeout=300, bindir=None, strace=None, keep_output=False):
+def run_rig(script, name, *, timeout=300, bindir=None, strace=None, keep_output=False, env_extra=None):
     """Execute one script; returns (events, returncode, stdout+stderr tail)."""
     d, exe = prepare(name, bindir)
     script = dict(script)
@@ -66,6 +66,7 @@ def run_rig(script, name, *, timeout=300, bindir=None, strace=None, keep_output=
     with open(sp, "w") as f:
         json.dump(script, f)
     env = dict(os.environ, VERIF_CMD="rig", VERIF_SCRIPT=sp, VERIF_OUT=out, RUST_BACKTRACE="0")
+    env.update(env_extra or {})
     launcher = exe
     if strace:
         # system-call log of the whole process tree (file names only for the requested calls)
